@@ -288,6 +288,8 @@ def main(argv):
             else:
                 violations.append((None, v))
         undecided += e.get('undecided', [])
+        for wmsg in e.get('warnings', []):
+            print('WARNING property=%s %s' % (prop, wmsg))
 
     wall = time.time() - t0
     rc = 0
